@@ -332,7 +332,7 @@ fn replay_plain_inner<G: AffineRepr + 'static>(shape: &Shape, err: &ErrPlan, see
     let bp_v = BulletproofGens::<G>::new(cap_v, 1);
     let vals = PlainVals::<FOf<G>>::new(model, seed);
     let shr = new_shared::<G>(shape, err, Box::new(vals));
-    let (proof, _pt) = prove_shape(shape, &shr, &pc, &bp_p, seed);
+    let (proof, mut pt) = prove_shape(shape, &shr, &pc, &bp_p, seed);
     let proof = match proof {
         Ok(p) => p,
         Err(_) => return (false, false, 0),
@@ -341,6 +341,15 @@ fn replay_plain_inner<G: AffineRepr + 'static>(shape: &Shape, err: &ErrPlan, see
     let mut vt = new_verifier_transcript(shape);
     let verifier = build_verifier(shape, &shr, &mut vt);
     let ok = verifier.verify(&proof, &pc, &bp_v).is_ok();
+    // 5 = the proof is accepted but the transcripts the two roles hand back drive different follow-up challenges
+    if ok {
+        let (mut tp, mut tv) = ([0u8; 32], [0u8; 32]);
+        pt.challenge_bytes(b"verif-tail", &mut tp);
+        vt.challenge_bytes(b"verif-tail", &mut tv);
+        if tp != tv {
+            return (true, ok, 5);
+        }
+    }
     // 2 = the tracked assignment violates something (the proof must be rejected), 3 = it is satisfying
     let sh = shr.borrow();
     let honest = sh.con_vals.iter().all(|v| v.is_zero()) && sh.gates.iter().all(|(l, r, o)| (*l * *r - *o).is_zero());
